@@ -365,7 +365,7 @@ func runSession(c J) J {
 				}
 				return result{Outcome: "ok", Out: buf.Bytes()}
 			case "CLI":
-				return runCLI(srcs[t], bind)
+				return runCLI(srcs[t], bind, jbool(c, "strict"), i%2 == 1)
 			}
 			return result{Outcome: "error", Stage: "harness", Msg: "unknown entry " + entry}
 		})
@@ -473,12 +473,27 @@ func runSession(c J) J {
 }
 
 // runCLI renders through the command-line tool (string bindings only, via --env).
-func runCLI(src string, bind map[string]any) result {
+// The template arrives on standard input or, every other time, as the FILE argument.
+func runCLI(src string, bind map[string]any, strict, asFile bool) result {
 	cli := os.Getenv("LQ_CLI")
 	if cli == "" {
 		return result{Outcome: "error", Stage: "harness", Msg: "LQ_CLI not set"}
 	}
-	cmd := exec.Command(cli, "--env")
+	args := []string{"--env"}
+	if strict {
+		args = append(args, "--strict")
+	}
+	if asFile {
+		f, err := os.CreateTemp("", "lqhcli*.liquid")
+		if err != nil {
+			return result{Outcome: "error", Stage: "harness", Msg: err.Error()}
+		}
+		defer os.Remove(f.Name())
+		f.WriteString(src)
+		f.Close()
+		args = append(args, f.Name())
+	}
+	cmd := exec.Command(cli, args...)
 	cmd.Env = []string{}
 	for k, v := range bind {
 		s, ok := v.(string)
@@ -487,14 +502,16 @@ func runCLI(src string, bind map[string]any) result {
 		}
 		cmd.Env = append(cmd.Env, k+"="+s)
 	}
-	cmd.Stdin = strings.NewReader(src)
+	if !asFile {
+		cmd.Stdin = strings.NewReader(src)
+	}
 	var out, errb bytes.Buffer
 	cmd.Stdout, cmd.Stderr = &out, &errb
 	if err := cmd.Run(); err != nil {
 		if strings.Contains(errb.String(), "panic") || strings.Contains(errb.String(), "goroutine ") {
 			return result{Outcome: "panic", PanicVal: truncate(errb.String(), 300)}
 		}
-		return result{Outcome: "error", Stage: "render", IsSrcErr: true, Msg: truncate(errb.String(), 300)}
+		return result{Outcome: "error", Stage: "render", IsSrcErr: true, Msg: truncate(strings.TrimSuffix(errb.String(), "\n"), 300)}
 	}
 	return result{Outcome: "ok", Out: out.Bytes()}
 }
